@@ -14,8 +14,9 @@
    outcome UAF, a never-allocated one Crash.  Loops run on fuel (number of cells ever
    allocated + 1); exhausting it is the outcome Fuel (a cyclic list in C).
 
-   The model mirrors the code WITH fixes/C06-1.patch applied (event.c: the new head's [prev] is
-   cleared when the old head leaves the queue).  [fix_c06_1 = false] gives the code as found. *)
+   [run true] mirrors the code WITH fixes/C06-1.patch applied (event.c: the new head's [prev] is cleared
+   when the old head leaves the queue); all theorems are about [run true].  [run false] is the code as
+   found; it reaches UAF (Properties_C06.unfixed_code_refuted). *)
 Require Import LV.Common.Bytes.
 Local Open Scope Z_scope.
 
@@ -151,11 +152,10 @@ Definition smq_add_back (st : state) (h : heap) (item : nat) : outcome (heap * o
               Ok (h3, s_smq_head st, Some item)
   end.
 
-Definition fix_c06_1 : bool := true.
-
 Definition w32 (x : Z) : Z := x mod 4294967296.
 
-Fixpoint write_loop (fuel : nat) (st : state) (sq : option nat) (err : bool) : outcome (state * bool) :=
+(* [fx] = fixes/C06-1.patch applied (the code as found is [fx = false]) *)
+Fixpoint write_loop (fx : bool) (fuel : nat) (st : state) (sq : option nat) (err : bool) : outcome (state * bool) :=
   match sq with
   | None => Ok (st, err)
   | Some p =>
@@ -190,10 +190,10 @@ Fixpoint write_loop (fuel : nat) (st : state) (sq : option nat) (err : bool) : o
         (* conn->send_queue_head = sq; if (!sq) tail = NULL; [fix: else sq->prev = NULL] *)
         do h5 <- match nx with
                  | None => Ok h4
-                 | Some x => if fix_c06_1 then store h4 x (with_prev None) else Ok h4
+                 | Some x => if fx then store h4 x (with_prev None) else Ok h4
                  end;
         let tail' := match nx with None => None | Some _ => s_tail st end in
-        write_loop fuel'
+        write_loop fx fuel'
           (mkSt h5 (s_next st) nx tail' len' ulen' (s_sm_enabled st) (s_r_sent st) nr' qh' qt'
                 (s_connected st) sched' wire') nx (err || e)
     end
@@ -205,9 +205,9 @@ Definition disconnect (st : state) : state :=
        (s_sent_nr st) (s_smq_head st) (s_smq_tail st) false (s_sched st) (s_wire st).
 
 (* the send phase of xmpp_run_once for this connection; second component: the connection was torn down *)
-Definition op_iter (st : state) : outcome (state * bool) :=
+Definition op_iter (fx : bool) (st : state) : outcome (state * bool) :=
   if s_connected st then
-    do r <- write_loop (S (s_next st)) st (s_head st) false;
+    do r <- write_loop fx (S (s_next st)) st (s_head st) false;
     let '(st1, err) := r in
     if err then Ok (disconnect st1, true) else Ok (st1, false)
   else Ok (st, false).
@@ -350,21 +350,21 @@ Definition add_sched (st : state) (l : list wres) : state :=
   mkSt (s_heap st) (s_next st) (s_head st) (s_tail st) (s_len st) (s_ulen st) (s_sm_enabled st) (s_r_sent st)
        (s_sent_nr st) (s_smq_head st) (s_smq_tail st) (s_connected st) (s_sched st ++ l) (s_wire st).
 
-Definition step (st : state) (o : op) : outcome (state * output) :=
+Definition step (fx : bool) (st : state) (o : op) : outcome (state * output) :=
   match o with
   | OSend ow d => do st' <- op_send st ow d; Ok (st', OutNone)
   | OSched l => Ok (add_sched st l, OutNone)
-  | OIter => do r <- op_iter st;
+  | OIter => do r <- op_iter fx st;
              Ok (fst r, OutIter (map snd (skipn (length (s_wire st)) (s_wire (fst r)))) (snd r))
   | ODrop w => do r <- op_drop st w; Ok (fst r, OutDrop (snd r))
   | OQlen => do n <- op_qlen st; Ok (st, OutLen n)
   | OAck h => do st' <- op_ack st h; Ok (st', OutNone)
   end.
 
-Fixpoint run (ops : list op) (st : state) : outcome (state * list output) :=
+Fixpoint run (fx : bool) (ops : list op) (st : state) : outcome (state * list output) :=
   match ops with
   | [] => Ok (st, [])
-  | o :: r => do x <- step st o; do y <- run r (fst x); Ok (fst y, snd x :: snd y)
+  | o :: r => do x <- step fx st o; do y <- run fx r (fst x); Ok (fst y, snd x :: snd y)
   end.
 
 (* a freshly connected connection; [sm] = stream management was enabled during negotiation *)
